@@ -5,7 +5,8 @@ arbitrary (failing, effectful) verb, equals the definitional expansion of Spec.v
 compose left to right; call traces.
 Link 2 (here): translator (is_adverb, get_adverb_arity, get_adverb_fn dispatch, shortcut tables) + correspondence:
   T  the adverb expression evaluated as source text by the real interpreter,
-  E  the expansion as separately evaluated verb applications on the real interpreter (harness/c02_child.py),
+  E  the expansion as separately evaluated verb applications on the real interpreter (harness/c02_child.py; the fixpoint
+     test of Converge / Scan-Converging is Klong's Match, also evaluated separately),
   M  the extracted model (coq/C02/Run.v).
 Property oracle: T == E.  Model equality: M == T (and the model's call trace == the applications E made).
 """
@@ -27,14 +28,20 @@ TRUSTED = [
     "correspondence harness: harness/c02.py, harness/c02_child.py (expansion oracle mirrors coq/C02/Spec.v), its own canonical form (strings = lists of characters)",
 ]
 ASSUME = [
-    "NumPy ufunc.reduce/accumulate along axis 0 of an integer array applies the scalar operation column by column, left to right; "
-    "np.min/np.max return the least/greatest element; reduce on an object array is a left fold with the elements' own operator (modelled, sampled by link 2)",
-    "integers stay below 10^5 in magnitude: no int64 wrap-around, and np.isclose inside Converge's equality is exact there",
-    "real-valued results (% shortcuts) are compared on the implementation only (text vs expansion); the model answers `unmodelled` for them; "
-    "float64 add.reduce of >= 8 elements is pairwise, not a left fold: outside the proved part",
-    "operands that come from literal text: the array representation (dtype, rank) is a function of the value",
-    "the verb semantics used by the extracted model cover integers, nested integer lists, characters and strings under Join; "
-    "NumPy broadcasting of unequal shapes is not modelled (such cases are checked text-vs-expansion only)",
+    "NumPy ufunc.reduce/accumulate along axis 0 applies the scalar operation column by column, left to right (float64 add.reduce over more than 8 "
+    "contiguous elements is pairwise and outside every statement; the universe has at most 5); np.min/np.max return the least/greatest element; "
+    "reduce on an object array is a left fold with the elements' own operator (modelled, sampled by link 2)",
+    "reals are IEEE binary64 as computed by Coq.Floats.SpecFloat (SFadd/SFsub/SFmul/SFdiv, round to nearest even; int->float by binary_normalize): "
+    "results are compared bit for bit with NumPy's; NaN payloads are not compared; np.isclose is modelled as abs(a-b) <= 1e-08 + 1e-05*abs(b) in binary64",
+    "no int64 wrap-around: integers of the universe stay small (the model's integers are unbounded)",
+    "operands come from literal text: the array representation (dtype, rank) is a function of the value; a list mixing integers and reals "
+    "(only possible as a list of results) is treated as an object array by the model",
+    "the verb semantics used by the extracted model cover integers, binary64 reals, nested numeric lists, characters and strings under Join; NumPy "
+    "broadcasting of unequal shapes, Equal on reals, arithmetic on characters, :undefined as a value are not modelled (such cases are still "
+    "checked text-vs-expansion on the implementation)",
+    "domain decisions where the reference is silent (the specification follows the implementation): Each-2 of an atom with a list (a number "
+    "cannot be paired: error; a character is its one-character string; a dictionary stands for its keys), Each-Index of an atom (f([0;a])), "
+    "Scan-Iterating with count 0 (b itself), a f\\[] (a itself, as the reference test-suite has it)",
 ]
 
 
@@ -154,6 +161,8 @@ def _cond_token(c):
         return "ndim1"
     if s == "a.dtype != 'O'":
         return "nonobj"
+    if s == "not _has_zero_divisor(a)":
+        return "nozerodiv"
     if s.startswith("hasattr(np_backend.") or s == "np_backend.isarray(a)":
         return None          # true for every NumPy array operand
     return "?" + s
@@ -252,6 +261,19 @@ def generate():
         out.append("Definition %s : list (string * string) := %s.%s" % (
             name, astlib.coq_list(items), "" if why is None else "  (* shape not recognised: %s *)" % why))
 
+    def guard():
+        m = astlib.module("klongpy/adverbs.py")
+        fn = astlib.find_func(m, "_has_zero_divisor")
+        body = astlib.body_no_doc(fn)
+        if len(body) != 1 or not isinstance(body[0], ast.Try) or len(body[0].body) != 1 or not isinstance(body[0].body[0], ast.Return):
+            raise ShapeError("_has_zero_divisor: try: return <test> expected")
+        h = body[0].handlers
+        if len(h) != 1 or len(h[0].body) != 1 or ast.unparse(h[0].body[0]) != "return False":
+            raise ShapeError("_has_zero_divisor: except: return False expected")
+        return ast.unparse(body[0].body[0].value)
+    v, why = astlib.try_flag(guard)
+    out.append("(* the test of _has_zero_divisor(a) *)")
+    out.append("Definition zero_divisor_guard : string := %s.%s" % (_s(v or ""), "" if why is None else "  (* shape not recognised: %s *)" % why))
     return "\n".join(out) + "\n"
 
 
@@ -272,13 +294,15 @@ NESTED_NUM = [L(1, L(2, 3)), L(L(1, 2), L(3, 4, 5)), L(L(1), L()), L(1, L(2, L(3
 STRS = [S(""), S("a"), S("ab"), S("abc"), S("hello")]
 STRUCT = [["c", "a"], L(S("ab"), S("cd")), L(S("a"), L(1)), L(["c", "a"], ["c", "b"]), L(S("ab"), 1, L(2))]
 DICTS = [["d", [1, 2], [3, 4]], ["d"], ["d", [1, 2]], ["d", [S("k"), L(1, 2)]]]
-NUM = ATOMS_NUM + VECS + MATS + NESTED_NUM
+REALS = [2.5, 0.5, -1.5, L(1.5, 2.25, 0.5), L(0.1, 0.2, 0.3), L(2.0, 4.0), L(0.1), L(L(0.1, 0.2), L(0.3, 0.4)),
+         L(L(1.5, 2.5, 3.5), L(0.5, 0.25, 4.0)), L(1e100, 3.0), L(L(0.1, 0.7), L(0.2, 0.3), L(0.3, 0.9))]
+NUM = ATOMS_NUM + VECS + MATS + NESTED_NUM + REALS
 ALLOPS = NUM + STRS + STRUCT
 
 A2 = ["+", "-", "*", "%", "&", "|", "=", "<", ">", "L+", "L-", "L*", "L%", "L&", "L|", "L=", "L<", "L>",
       "Lnc", "Ldec", "proj", "nproj", "named", "py"]
 S2 = [",", "L,", "Lsnd", "Lfst", "Lnest"]
-A1 = ["-", "L-", "Linc", "Ldbl", "Lcap", "Lhalf", "proj", "named", "py", "pycap"]
+A1 = ["-", "L-", "Linc", "Ldbl", "Lcap", "Lhalf", "proj", "named", "py", "pycap", "Lnewton"]
 S1 = ["#", "L#", ",", "L,", "|", "*", "Ldup", "Lid", "Lone", "Lcons", "Lflat"]
 GROW1 = {"Ldup", "Lcons", "Ldbl", "named", ",", "L,"}
 MONADIC_USE = ["each", "eachindex", "over", "scan", "eachpair", "converge", "scanconv"]
@@ -289,7 +313,7 @@ OPS = {"+", "-", "*", "%", "&", "|", "=", "<", ">", ",", "#"}
 
 
 def is_num(v):
-    if isinstance(v, int):
+    if isinstance(v, (int, float)):
         return True
     return v[0] == "l" and all(is_num(x) for x in v[1:])
 
@@ -310,17 +334,23 @@ def universe(tier, rng):
             if adv in ("converge", "scanconv") and v in GROW1:
                 continue
             operands = NUM if arithmetic else ALLOPS
-            if adv in MONADIC_USE or adv == "each":
-                operands = operands + (DICTS if not arithmetic or adv == "each" else [])
+            if v == "Lnewton":
+                # Newton's iteration for the square root of 2 (the reference's Converge example): positive starts only
+                operands = [2, 2.0, 9, 0.5]
+            elif v == "Lhalf":
+                operands = [a for a in operands if a not in REALS]      # integer division of reals is C01's
+            if not arithmetic or adv == "each":
+                operands = operands + DICTS          # dictionaries are atoms for every adverb but Each
             if adv in ("while", "scanwhile"):
                 # an orbit that never ends must at least stay small: atoms, vectors, strings only
-                operands = [a for a in operands if (a in ATOMS_NUM and a >= 0) or a in VECS or a in STRS]
+                operands = [a for a in operands if (a in ATOMS_NUM and a >= 0) or a in VECS or a in STRS or a in (2.5, 0.5) or a in DICTS]
             for a in operands:
-                if v == "|" and ar == 1 and (isinstance(a, int) or a[0] in ("c", "d", "s")):
+                if v == "|" and ar == 1 and (isinstance(a, (int, float)) or a[0] in ("c", "d", "s")):
                     continue          # Reverse of an atom (a character of a string included) is C01's subject
-                shortcut = ar == 2 and v in OPS and adv in ("over", "scan") and is_num(a) and not isinstance(a, int)
+                shortcut = ar == 2 and v in OPS and adv in ("over", "scan") and is_num(a) and not isinstance(a, (int, float))
+                isatom = isinstance(a, (int, float)) or a[0] in ("c", "d")
                 if adv in MONADIC_USE:
-                    add({"adv": adv, "verb": v, "a": a}, core=shortcut or a in (L(3, 1, 2), S("abc"), 5) or v == "pycap")
+                    add({"adv": adv, "verb": v, "a": a}, core=shortcut or a in (L(3, 1, 2), S("abc"), 5) or v in ("pycap", "Lnewton"))
                 elif adv in ("while", "scanwhile"):
                     for p in PREDS:
                         add({"adv": adv, "verb": v, "a": a, "left": p}, core=(a == 1 and p == "lt10"))
@@ -329,20 +359,20 @@ def universe(tier, rng):
                         add({"adv": adv, "verb": v, "a": a, "left": n}, core=(a in (1, L(1, 2)) and n == 3))
                 else:
                     if adv == "each2":
-                        lefts = [7, L(), L(10, 20), L(10, 20, 30), L(L(1, 1), L(2, 2))]
+                        lefts = [7, L(), L(10, 20), L(10, 20, 30), L(L(1, 1), L(2, 2)), 0.5, L(0.5, 1.5, 0.1)]
                     elif adv in ("eachleft", "eachright"):
-                        lefts = [0, 7, L(1, 2)]
+                        lefts = [0, 7, L(1, 2), 0.5]
                     else:
-                        lefts = [0, 10, L(), L(1, 2)]
+                        lefts = [0, 10, L(), L(1, 2), 0.5, L(0.1, 0.2)]
                     if not arithmetic:
-                        lefts = lefts + [S("xy"), ["c", "z"]]
+                        lefts = lefts + [S("xy"), ["c", "z"], ["d", [1, 2]]]
                     for l in lefts:
                         add({"adv": adv, "verb": v, "a": a, "left": l}, core=(a in (L(3, 1, 2), S("abc")) and l in (7, 0, 10, L(10, 20, 30))))
     # chains: every first adverb of monadic use x every adverb of monadic verbs (+ one 3-chain)
     cverbs1 = ["-", "#", "Lid", "Lone", "Lcap", "|", "py"]
     cverbs2 = ["+", ",", "&", "Lsnd", "Lnc", "L+", "py", "-"]
     cops = [L(L(1, 2), L(3, 4)), L(L(1, 2, 3), L(4, 5, 6), L(7, 8, 9)), L(1, L(2, L(3, L(4), 5), 6), 7), L(3, 1, 2), L(L(5)), L(), 5,
-            L(S("ab"), S("cd")), L(L(1), L(2, 3))]
+            L(S("ab"), S("cd")), L(L(1), L(2, 3)), L(L(0.1, 0.2), L(0.3, 0.4)), ["d", [1, 2], [3, 4]]]
     calm1 = ["Lid", "Lone", "Lcap", "#", "-", "pycap"]      # verbs under which a repeated application stays bounded
     for first in MONADIC_USE:
         for second in ("each", "eachindex", "converge", "scanconv"):
@@ -356,7 +386,7 @@ def universe(tier, rng):
                     vs = calm1
             for v in vs:
                 for a in cops:
-                    if v in ("|",) and isinstance(a, int):
+                    if v in ("|",) and isinstance(a, (int, float)):
                         continue
                     if v in (A1 if VERB_ARITY[first] == 1 else A2) and not is_num(a):
                         continue          # arithmetic on strings is outside the verbs' domain (and can explode)
@@ -416,6 +446,9 @@ def to_sx(v):
     """structured operand -> model value"""
     if isinstance(v, int):
         return ["i", v]
+    if isinstance(v, float):
+        import struct
+        return ["r", struct.unpack(">Q", struct.pack(">d", v))[0]]
     t = v[0]
     if t == "c":
         return ["c", ord(v[1])]
@@ -443,16 +476,9 @@ def model_request(c):
 
 
 def norm(c):
-    if not isinstance(c, list):
-        return c
-    t = c[0] if c else None
-    if t == "s":
-        return ["l"] + [["c", x] for x in c[1:]]
-    if t == "l":
-        return ["l"] + [norm(x) for x in c[1:]]
-    if t == "d":
-        return ["d"] + sorted([[norm(k), norm(v)] for k, v in c[1:]], key=repr)
-    return c
+    """the one comparison form (strings = lists of characters, NumPy's numeric homogenisation, NaN): harness/c02_child.norm"""
+    from .c02_child import norm as child_norm
+    return child_norm(c)
 
 
 def has_real(c):
@@ -529,8 +555,6 @@ def classify(chk, c, o, m):
     if m[0] == "bad":
         corr = "model rejected the request: %r" % (m,)
     elif m[0] == "err" and m[1] in (99,):
-        chk.count("model_unmodelled")
-    elif has_real(o["t"]) or has_real(o["e"]):
         chk.count("model_unmodelled")
     elif unrep:
         pass
